@@ -569,6 +569,9 @@ def run(ctx, out, tier):
         check_once(ctx, out, dv, rule="C11.once")
     else:
         out.inst("C11.once", 0, 4)
+    # every block of every file is offered to every validator (no truncated / early-left iteration)
+    for nm in ("keep-sorted", "keep-unique", "line-pattern", "line-count"):
+        shared.sh_visit(ctx, out, nm, rule="C11.visit")
     shared.sh_err(ctx, out, bodies, floor=300)
     shared.sh_main(ctx, out)
     shared.sh_traverse(ctx, out)
